@@ -14,6 +14,7 @@ pub mod c16;
 pub mod c33;
 pub mod c37;
 pub mod c38;
+pub mod c39;
 pub mod c41;
 pub mod c42;
 pub mod cfgdiff;
@@ -52,6 +53,7 @@ fn table() -> Vec<(&'static str, CheckFn)> {
         ("C33", c33::run),
         ("C37", c37::run),
         ("C38", c38::run),
+        ("C39", c39::run),
         ("C41", c41::run),
         ("C42", c42::run),
         ("C43", c38::run_c43),
